@@ -65,6 +65,11 @@ func runC05(c *Ctx) {
 		rng *ssa.Range
 	}
 	var relocs []reloc
+	type move struct {
+		m   HeaderMutation
+		src ssa.Value
+	}
+	var moves []move
 	for _, fn := range SortedFuncs(reach) {
 		if !p.inScope(fn) {
 			continue
@@ -103,6 +108,25 @@ func runC05(c *Ctx) {
 			// computed key: must be a relocation of ranged entries
 			rk, okK := rangeKeyOf(m.Key)
 			if !okK || !isHTTPHeader(rk.X.Type()) {
+				// dst[k] = src[k] ; delete(src, k): an entry moved under its own key, whatever
+				// selected k (a set of announced trailer names, say)
+				if src, ok := sameKeyLookup(m.Val, m.Key); ok && m.Op == "index" {
+					c.OK("C05.1", FuncName(fn), desc+":move-same-key", m.Instr.Pos(), "an entry moved to another header map under its own key, value list unchanged")
+					moves = append(moves, move{m, src})
+					continue
+				}
+				if m.Op == "delete" || m.Op == "Del" {
+					second := false
+					for _, m2 := range HeaderMutations(fn) {
+						if src, ok := sameKeyLookup(m2.Val, m2.Key); ok && m2.Op == "index" && m2.Key == m.Key && PathOf(src) == PathOf(m.Map) {
+							second = true
+						}
+					}
+					if second {
+						c.OK("C05.1", FuncName(fn), desc+":moved-key", m.Instr.Pos(), "deletes the key of the entry that was moved")
+						continue
+					}
+				}
 				// writes into a fresh map that is being parsed/constructed are not mutations of transported metadata
 				if isFresh(m.Map) && (m.Op == "Add" || m.Op == "Set" || m.Op == "index") {
 					c.OK("C05.1", FuncName(fn), desc+":build-fresh", m.Instr.Pos(), "entries added to a header map constructed in this function (parsing/assembly, not transported metadata)")
@@ -191,6 +215,33 @@ func runC05(c *Ctx) {
 		found, path := PathQuery{Target: isNextOrExit, Avoid: isDel}.Search(fn, r.m.Instr)
 		c.Check(!found, "C05.2", FuncName(fn), "move-deletes-source", r.m.Instr.Pos(),
 			"each extracted entry is deleted from the live source map before the next iteration",
+			"an entry copied out of the live header map is left behind in it (delivered twice: as header and as trailer): "+witnessString(p, path))
+	}
+
+	// the same for entries moved under their own key (dst[k] = src[k])
+	for _, mv := range moves {
+		fn := mv.m.Fn
+		isDel := func(in ssa.Instruction) bool {
+			ci, ok := in.(ssa.CallInstruction)
+			if !ok {
+				return false
+			}
+			name := CalleeName(ci)
+			if name != "builtin delete" && name != "(net/http.Header).Del" {
+				return false
+			}
+			args := ci.Common().Args
+			return PathOf(args[0]) == PathOf(mv.src) && args[1] == mv.m.Key
+		}
+		isNextOrExit := func(in ssa.Instruction) bool {
+			if _, ok := in.(*ssa.Next); ok {
+				return true
+			}
+			return IsExit(in)
+		}
+		found, path := PathQuery{Target: isNextOrExit, Avoid: isDel}.Search(fn, mv.m.Instr)
+		c.Check(!found, "C05.2", FuncName(fn), "move-deletes-source", mv.m.Instr.Pos(),
+			"each moved entry is deleted from the source map before the next iteration",
 			"an entry copied out of the live header map is left behind in it (delivered twice: as header and as trailer): "+witnessString(p, path))
 	}
 
@@ -523,4 +574,24 @@ func returnsConstNamed(fn *ssa.Function, constName string) bool {
 		}
 	})
 	return all && n > 0
+}
+
+// sameKeyLookup: val is src[key] (plain or comma-ok) for a header map src and
+// the very key value `key`.
+func sameKeyLookup(val, key ssa.Value) (ssa.Value, bool) {
+	if val == nil || key == nil {
+		return nil, false
+	}
+	v := strip(val)
+	if ex, ok := v.(*ssa.Extract); ok && ex.Index == 0 {
+		v = ex.Tuple
+	}
+	lk, ok := v.(*ssa.Lookup)
+	if !ok || !isHTTPHeader(lk.X.Type()) {
+		return nil, false
+	}
+	if lk.Index != key && strip(lk.Index) != strip(key) {
+		return nil, false
+	}
+	return lk.X, true
 }
